@@ -126,7 +126,59 @@ pub fn judge(job: &JobSpec, cfg: &ConfigSpec, crash: (u32, u64), addr: AddrSeed,
     Ok(Some(panicked.len() < started && n_hosts >= 1))
 }
 
-fn run(ctx: &Ctx, _mode: &str) -> Report {
+/// Exhaustive mode: for every generated (small) program, EVERY user closure position x the call
+/// counts {first, second, middle, last element of the input} is injected in turn.
+fn run_enumerate(ctx: &Ctx) -> Report {
+    let mut report = Report::default();
+    let p = Profile { max_stages: 6, max_input: 60, ..profile() };
+    let counter = std::cell::Cell::new(0u64);
+    search(ctx, 2, ctx.cases(64, 2400), 60..300, &mut report, |choices, rep, shrinking| {
+        let mut g = Gen::new(choices, &p);
+        let mut job = g.job();
+        job.sink = [SinkKind::CollectVec, SinkKind::Collect, SinkKind::CollectCount, SinkKind::CollectVecAll][g.ch.weighted(&[5, 1, 2, 2])];
+        if count_closures(&job.pipe.stages) == 0 {
+            job.pipe.stages.push(Stage::Map(crate::rec::MapFn::Affine(1, 1)));
+        }
+        let closures = count_closures(&job.pipe.stages);
+        let cfg = g.config(false, false);
+        let len = job.pipe.source.len().max(1) as u64;
+        let mut ks = vec![1u64, 2, (len / 2).max(1), len];
+        ks.sort();
+        ks.dedup();
+        let mut nontrivial = None;
+        let mut points = 0u64;
+        for n in 0..closures {
+            for &k in &ks {
+                let c = counter.get();
+                counter.set(c + 1);
+                match judge(&job, &cfg, (n, k), AddrSeed { shard: ctx.shard, job: 100_000 + c }, ctx.tier, shrinking) {
+                    Ok(Some(nt)) => {
+                        points += 1;
+                        if nt {
+                            nontrivial = Some(fingerprint(&(&job, &cfg)));
+                        }
+                    }
+                    Ok(None) => {}
+                    Err(message) => {
+                        return Case::Fail { message, replay: json!({"property": "C20", "job": job, "configs": [cfg], "crash": [n, k]}) }
+                    }
+                }
+            }
+        }
+        let e = rep.extra.entry("crash_points_enumerated".into()).or_insert(json!(0u64));
+        *e = json!(e.as_u64().unwrap_or(0) + (closures as u64) * ks.len() as u64);
+        let e = rep.extra.entry("crash_points_reached".into()).or_insert(json!(0u64));
+        *e = json!(e.as_u64().unwrap_or(0) + points);
+        rep.class("programs_with_all_crash_points_enumerated");
+        Case::Pass { nontrivial }
+    });
+    report
+}
+
+fn run(ctx: &Ctx, mode: &str) -> Report {
+    if mode == "enumerate" {
+        return run_enumerate(ctx);
+    }
     let mut report = Report::default();
     let p = profile();
     let counter = std::cell::Cell::new(0u64);
@@ -184,9 +236,9 @@ pub fn def() -> CheckDef {
     CheckDef {
         id: "C20",
         level: "fault_enumeration",
-        rule: "random acyclic jobs (no loops, one final sink out of collect_vec / collect / collect_count / collect_vec_all, so every user closure is upstream of the sink) x a crash point = (index of a user closure in build order, call count k at which every replica's instance of that closure panics) x a deployment (local 1-8, 1-4 hosts, all batch modes); predicates: every host's execute_blocking returns or panics within the watchdog, every worker thread ends, execute_blocking panics on every host that runs a panicked replica or the sink, no host obtains a sink result; when the crash point is not reached the run must equal the reference; non-trivial = the crash was reached and some replica never panicked; distinct = hash of (job, configuration, crash point)",
-        assumptions: &["crash points are sampled (closure position x call count), not enumerated exhaustively per program", "streaming sinks (collect_channel, for_each) publish incrementally by design and are excluded"],
-        modes: |t| vec![("main", t.pick(8, 14))],
+        rule: "(sampled mode) random acyclic jobs (no loops, one final sink out of collect_vec / collect / collect_count / collect_vec_all, so every user closure is upstream of the sink) x a crash point = (index of a user closure in build order, call count k at which every replica's instance of that closure panics) x a deployment (local 1-8, 1-4 hosts, all batch modes); predicates: every host's execute_blocking returns or panics within the watchdog, every worker thread ends, execute_blocking panics on every host that runs a panicked replica or the sink, no host obtains a sink result; when the crash point is not reached the run must equal the reference; (enumerate mode) for small programs (<= 6 stages, <= 60 elements) every user closure position x call counts {1, 2, middle, last} is injected in turn under one deployment; non-trivial = the crash was reached and some replica never panicked; distinct = hash of (job, configuration, crash point)",
+        assumptions: &["the sampled mode draws crash points; the enumerate mode covers every closure position of small programs at four call counts, not every call count", "streaming sinks (collect_channel, for_each) publish incrementally by design and are excluded"],
+        modes: |t| vec![("main", t.pick(8, 14)), ("enumerate", t.pick(4, 8))],
         run,
         replay,
     }
